@@ -1970,6 +1970,25 @@ def int_method_model(callee):
             yield (st.fresh(0, 'ext:' + meth), st, 'ok', None)
         return checked_model
 
+    if meth in ('checked_rem', 'checked_div') and not signed:
+        opd = 'urem' if meth == 'checked_rem' else 'udiv'
+
+        def checked_divrem(ip, st, fr, t, args, site, dest_ty):
+            if len(args) == 2 and all(is_int(x) for x in args):
+                a, b = args
+                opt = 'std::option::Option'
+                s2 = st.copy()
+                if s2.env.assume_eq(b, 0):
+                    s2.decisions.append((O(1, 'eq', b, C(b[1], 0)), 'checked', site))
+                    yield (('agg', ('adt', opt, 0, 'None'), ()), s2, 'ok', None)
+                if st.env.assume_ne(b, 0):
+                    st.decisions.append((O(1, 'ne', b, C(b[1], 0)), 'checked', site))
+                    yield (('agg', ('adt', opt, 1, 'Some'), (O(bits, opd, a, b),)), st, 'ok', None)
+                return
+            st.events.append(('extcall', callee, tuple(args), site))
+            yield (st.fresh(0, 'ext:' + meth), st, 'ok', None)
+        return checked_divrem
+
     def val(f, arity):
         def model(ip, st, fr, t, args, site, dest_ty):
             if len(args) == arity and all(is_int(a) for a in args):
